@@ -13,6 +13,8 @@ def specs(tier, seed):
         S.append(('twin', t, (('control', ctl), ('schedule_a', R4), ('schedule_b', (('run', 2), ('run', 2))))))
     for u in ('ms', 'min', 'hour'):
         S.append(('twin', 'T1', (('schedule_a', R4), ('schedule_b', (('run', 2), ('run', 2, u))), ('tag', ':cont_' + u))))
+    # the continuation gives dt and T in two different units, both other than the first run's
+    S.append(('twin', 'T1', (('schedule_a', R4), ('schedule_b', (('run', 2), ('run', 2, 'ms', 1, 'min'))), ('tag', ':cont_ms_min'))))
     R2 = (('run', 2),)
     for t in ('T1', 'T4', 'T7'):
         S.append(('twin', t, (('schedule_a', R2), ('schedule_b', (('run', 2), ('reset',), ('reinit',), ('run', 2))))))
@@ -26,6 +28,14 @@ def specs(tier, seed):
         S.append(('twin', t, (('control', cp), ('schedule_a', (('run', 3),)),
                               ('schedule_b', (('run', 3), ('reset',), ('reinit',), ('run', 3))))))
         S.append(('twin', t, (('control', cp), ('schedule_a', (('run', 4),)), ('schedule_b', (('run', 2), ('run', 2))))))
+    # a timer rule that starts later: the duty cycle at the first instant is the motor's default, the one in force when the
+    # run ends is 0 / negative; after reset only position and speed are re-applied (reset itself must restore the rest);
+    # motors with (T4) and without (T11) current data
+    for t in ('T4', 'T11'):
+        for val in (0.0, -0.5):
+            S.append(('twin', t, (('control', ('const', ((0.2, 1.0, val),))), ('schedule_a', (('run', 3),)),
+                                  ('schedule_b', (('run', 3), ('reset',), ('reinit_state',), ('run', 3))),
+                                  ('tag', ':late_rule_%s' % val))))
     if tier == 'thorough':
         R5 = (('run', 5),)
         for t in ('T1', 'T2', 'T4', 'T5', 'T7'):
@@ -54,9 +64,9 @@ REQUIRED_TRIGGERS = {'quick': ('same.number_of_instants', 'same.time', 'same.his
 BOUNDS = {
     'quick': 'twin executions inside one exploration, configuration and dt concrete (dt = 1/8 s), initial state and one '
              'load value per instant symbolic: run(4) vs run(2)+run(2) on T1,T3(fixed duty),T4,T6; continuation '
-             'expressed in ms / min / hour after a run in sec (T1); run(2) vs run(2)+reset+re-init+run(2) with the same '
+             'expressed in ms / min / hour after a run in sec, and with dt in ms and T in min (T1); run(2) vs run(2)+reset+re-init+run(2) with the same '
              'and with a new Solver on T1, T4, T7 (self-locking, may end held) and T3 with an arbitrary duty per instant; built-in '
-             'ConstantPWM timer rules on a control object reused across reset and continuation (T3, T4)',
+             'ConstantPWM timer rules on a control object reused across reset and continuation (T3, T4); a timer rule starting after the first instant (run ends with duty 0 / -0.5) with only position and speed re-applied after reset, motors with and without current data (T4, T11)',
     'thorough': 'quick + run(5) vs 2+3 and 3+2, all 4x3 ordered pairs of time units, T2/T5/T7, 8 seeded chains',
 }
 OUTSIDE = 'splits with more than 5 steps in total; more than one reset; symbolic dt (would enter the loop bound of arange)'
